@@ -5,6 +5,15 @@
 #include <cmath>
 #include <sys/wait.h>
 #include <unistd.h>
+#if defined(__has_feature)
+#if __has_feature(address_sanitizer)
+#include <sanitizer/allocator_interface.h>
+#define HAVE_ASAN_IFACE 1
+#endif
+#endif
+#ifndef HAVE_ASAN_IFACE
+static inline size_t __sanitizer_get_allocated_size(const volatile void *) { return 0; }
+#endif
 
 namespace sim {
 namespace {
@@ -667,6 +676,256 @@ struct Exec {
         out.probes["lat.posteriors_checked"]++;
     }
 
+    // ---- C14: the JSON result is well-formed and says what the iterators say
+    // strict RFC 8259 validation of one value (no extensions: no control characters in strings, no leading zeros,
+    // valid escapes, valid UTF-8); returns the position after the value or npos
+    static size_t json_strict(const std::string &t, size_t p, int depth, std::string &err)
+    {
+        auto ws = [&]() {
+            while (p < t.size() && (t[p] == ' ' || t[p] == '\t' || t[p] == '\r' || t[p] == '\n'))
+                ++p;
+        };
+        auto fail = [&](const char *m) {
+            if (err.empty())
+                err = std::string(m) + " at byte " + std::to_string(p);
+            return std::string::npos;
+        };
+        if (depth > 64)
+            return fail("too deep");
+        ws();
+        if (p >= t.size())
+            return fail("unexpected end");
+        unsigned char c = (unsigned char)t[p];
+        if (c == '{') {
+            ++p;
+            ws();
+            if (p < t.size() && t[p] == '}')
+                return p + 1;
+            for (;;) {
+                ws();
+                if (p >= t.size() || t[p] != '"')
+                    return fail("expected member name");
+                p = json_strict(t, p, depth + 1, err);
+                if (p == std::string::npos)
+                    return p;
+                ws();
+                if (p >= t.size() || t[p] != ':')
+                    return fail("expected ':'");
+                ++p;
+                p = json_strict(t, p, depth + 1, err);
+                if (p == std::string::npos)
+                    return p;
+                ws();
+                if (p < t.size() && t[p] == ',') { ++p; continue; }
+                if (p < t.size() && t[p] == '}')
+                    return p + 1;
+                return fail("expected ',' or '}'");
+            }
+        }
+        if (c == '[') {
+            ++p;
+            ws();
+            if (p < t.size() && t[p] == ']')
+                return p + 1;
+            for (;;) {
+                p = json_strict(t, p, depth + 1, err);
+                if (p == std::string::npos)
+                    return p;
+                ws();
+                if (p < t.size() && t[p] == ',') { ++p; continue; }
+                if (p < t.size() && t[p] == ']')
+                    return p + 1;
+                return fail("expected ',' or ']'");
+            }
+        }
+        if (c == '"') {
+            ++p;
+            while (p < t.size() && t[p] != '"') {
+                unsigned char ch = (unsigned char)t[p];
+                if (ch < 0x20)
+                    return fail("control character in string");
+                if (ch == '\\') {
+                    if (p + 1 >= t.size())
+                        return fail("bad escape");
+                    char e = t[p + 1];
+                    if (e == 'u') {
+                        if (p + 6 > t.size())
+                            return fail("bad \\u escape");
+                        for (int k = 2; k < 6; ++k)
+                            if (!isxdigit((unsigned char)t[p + (size_t)k]))
+                                return fail("bad \\u escape");
+                        p += 6;
+                    } else if (strchr("\"\\/bfnrt", e))
+                        p += 2;
+                    else
+                        return fail("bad escape");
+                    continue;
+                }
+                if (ch >= 0x80) { // UTF-8 well-formedness
+                    int n = ch >= 0xf0 ? 3 : ch >= 0xe0 ? 2 : ch >= 0xc2 ? 1 : -1;
+                    if (n < 0 || ch > 0xf4 || p + (size_t)n >= t.size())
+                        return fail("invalid UTF-8");
+                    for (int k = 1; k <= n; ++k)
+                        if (((unsigned char)t[p + (size_t)k] & 0xc0) != 0x80)
+                            return fail("invalid UTF-8");
+                    p += (size_t)n + 1;
+                    continue;
+                }
+                ++p;
+            }
+            if (p >= t.size())
+                return fail("unterminated string");
+            return p + 1;
+        }
+        if (!t.compare(p, 4, "true")) return p + 4;
+        if (!t.compare(p, 5, "false")) return p + 5;
+        if (!t.compare(p, 4, "null")) return p + 4;
+        // number
+        size_t q = p;
+        if (q < t.size() && t[q] == '-') ++q;
+        if (q >= t.size() || !isdigit((unsigned char)t[q]))
+            return fail("bad value");
+        if (t[q] == '0') ++q;
+        else while (q < t.size() && isdigit((unsigned char)t[q])) ++q;
+        if (q < t.size() && t[q] == '.') {
+            ++q;
+            if (q >= t.size() || !isdigit((unsigned char)t[q]))
+                return fail("bad fraction");
+            while (q < t.size() && isdigit((unsigned char)t[q])) ++q;
+        }
+        if (q < t.size() && (t[q] == 'e' || t[q] == 'E')) {
+            ++q;
+            if (q < t.size() && (t[q] == '+' || t[q] == '-')) ++q;
+            if (q >= t.size() || !isdigit((unsigned char)t[q]))
+                return fail("bad exponent");
+            while (q < t.size() && isdigit((unsigned char)t[q])) ++q;
+        }
+        return q;
+    }
+    static std::string f3(double v)
+    {
+        char b[64];
+        snprintf(b, sizeof b, "%.3f", v);
+        return b;
+    }
+    // the number as printed in the JSON text for member `key` of object text... we compare printed forms: re-print the parsed double
+    void json_cmp_entry(const Json &o, const std::string &what, double b, double d, double pr, const std::string &t, int opi)
+    {
+        auto bad = [&](const std::string &trig, const std::string &msg) { viol("C14", "fields_agree", trig, what + ": " + msg, opi); };
+        if (o.t != Json::OBJ) {
+            bad("shape", "not an object");
+            return;
+        }
+        for (const char *k : { "b", "d", "p", "t" })
+            if (!o.has(k)) {
+                bad("shape", std::string("member ") + k + " missing");
+                return;
+            }
+        if (f3(o.getd("b")) != f3(b))
+            bad("b", "start " + f3(o.getd("b")) + ", interface says " + f3(b));
+        if (f3(o.getd("d")) != f3(d))
+            bad("d", "duration " + f3(o.getd("d")) + ", interface says " + f3(d));
+        if (f3(o.getd("p")) != f3(pr))
+            bad("p", "probability " + f3(o.getd("p")) + ", interface says " + f3(pr));
+        if (o.gets("t") != t)
+            bad("t", "text '" + o.gets("t") + "', interface says '" + t + "'");
+    }
+    void check_json(DecState &s, const Json &op, bool final, int opi)
+    {
+        (void)final;
+        int level = (int)op.geti("level", 0);
+        double start = op.getd("start", 0.0);
+        Rec r = capture(s.d);
+        if (level > 0)
+            capture_alignment(s.d, r);
+        int32 prob = decoder_prob(s.d);
+        const char *js = decoder_result_json(s.d, start, level);
+        out.checks++;
+        out.events.str(js ? js : "(null)");
+        out.probes[js ? "json.returned" : "json.null"]++;
+        if (!js) {
+            if (level == 0)
+                viol("C14", "returned", "null_at_level0", "decoder_result_json(level 0) returned NULL", opi);
+            else if (!r.align_null)
+                viol("C14", "returned", "null_with_alignment", "decoder_result_json returned NULL although an alignment exists", opi);
+            return;
+        }
+        std::string t = js;
+        // exactly as long as the buffer allocated for it
+        size_t alloc = __sanitizer_get_allocated_size(js);
+        if (alloc != 0 && alloc != t.size() + 1)
+            viol("C14", "buffer_length", "size", "JSON text of " + std::to_string(t.size()) + "+1 bytes in a buffer of " + std::to_string(alloc), opi);
+        if (t.empty() || t.back() != '\n' || (t.size() > 1 && t[t.size() - 2] == '\n'))
+            viol("C14", "wellformed", "newline", "not terminated by exactly one newline", opi);
+        std::string err;
+        size_t e = json_strict(t, 0, 0, err);
+        if (e == std::string::npos || t[0] != '{' || e != t.size() - 1) {
+            viol("C14", "wellformed", err.empty() ? "trailing" : "syntax", "not one valid JSON object + newline: " + (err.empty() ? std::string("trailing data") : err) + ": " + t.substr(0, 200), opi);
+            return;
+        }
+        Json j;
+        if (!Json::parse(t, j)) {
+            out.other["json.harness_parser_disagrees"]++;
+            return;
+        }
+        logmath_t *lm = decoder_logmath(s.d);
+        int frate = (int)config_int(decoder_config(s.d), "frate");
+        json_cmp_entry(j, "result", start, (double)r.n_frames / frate, logmath_exp(lm, prob), r.hyp_null ? "" : r.hyp, opi);
+        const Json &w = j["w"];
+        if (w.t != Json::ARR) {
+            viol("C14", "fields_agree", "shape", "member w is not an array", opi);
+            return;
+        }
+        if (level == 0) {
+            if (w.a.size() != r.segs.size())
+                viol("C14", "fields_agree", "count", "JSON lists " + std::to_string(w.a.size()) + " segments, the iterator " + std::to_string(r.segs.size()), opi);
+            for (size_t k = 0; k < w.a.size() && k < r.segs.size(); ++k) {
+                const SegR &g = r.segs[k];
+                json_cmp_entry(w.a[k], "segment " + std::to_string(k), start + (double)g.sf / frate, (double)(g.ef + 1 - g.sf) / frate, logmath_exp(lm, g.prob), g.word, opi);
+            }
+            if (r.segs.empty())
+                out.probes["json.empty_result"]++;
+        } else {
+            if (w.a.size() != r.words.size())
+                viol("C14", "fields_agree", "count", "JSON lists " + std::to_string(w.a.size()) + " words, the alignment " + std::to_string(r.words.size()), opi);
+            size_t pi = 0, si = 0;
+            for (size_t k = 0; k < w.a.size() && k < r.words.size(); ++k) {
+                const AlEnt &we = r.words[k];
+                json_cmp_entry(w.a[k], "word " + std::to_string(k), start + (double)we.start / frate, (double)we.dur / frate, logmath_exp(lm, we.score), we.name, opi);
+                const Json &ph = w.a[k]["w"];
+                if (ph.t != Json::ARR || (int)ph.a.size() != we.nchild) {
+                    viol("C14", "fields_agree", "count", "word " + std::to_string(k) + " lists " + std::to_string(ph.a.size()) + " phones, the alignment " + std::to_string(we.nchild), opi);
+                    pi += (size_t)we.nchild;
+                    continue;
+                }
+                for (int q = 0; q < we.nchild && pi < r.phones.size(); ++q, ++pi) {
+                    const AlEnt &pe = r.phones[pi];
+                    json_cmp_entry(ph.a[(size_t)q], "phone " + std::to_string(pi), start + (double)pe.start / frate, (double)pe.dur / frate, logmath_exp(lm, pe.score), pe.name, opi);
+                    if (level > 1) {
+                        const Json &st = ph.a[(size_t)q]["w"];
+                        if (st.t != Json::ARR || (int)st.a.size() != pe.nchild) {
+                            viol("C14", "fields_agree", "count", "phone " + std::to_string(pi) + " lists " + std::to_string(st.a.size()) + " states, the alignment " + std::to_string(pe.nchild), opi);
+                            si += (size_t)pe.nchild;
+                            continue;
+                        }
+                        for (int z = 0; z < pe.nchild && si < r.states.size(); ++z, ++si) {
+                            const AlEnt &se = r.states[si];
+                            json_cmp_entry(st.a[(size_t)z], "state " + std::to_string(si), start + (double)se.start / frate, (double)se.dur / frate, logmath_exp(lm, se.score), se.name, opi);
+                        }
+                    } else
+                        si += (size_t)pe.nchild;
+                }
+            }
+            out.probes["json.with_alignment"]++;
+        }
+        out.probes["json.checked"]++;
+        for (unsigned char ch : t)
+            if (ch == '\\' || ch >= 0x80) {
+                out.probes["json.hostile_spelling_in_result"]++;
+                break;
+            }
+    }
+
     // ---- ops
     bool load_grammar(DecState &s, const Json &g, int opi)
     {
@@ -767,6 +1026,8 @@ struct Exec {
                 check_nbest(s, L, (int)op.geti("k", 5), op.getb("abandon"), opi);
             if (what == "post" && dag)
                 check_posteriors(s, dag, L, opi);
+        } else if (what == "json") {
+            check_json(s, op, final, opi);
         } else if (what == "align") {
             Rec r = capture(s.d);
             capture_alignment(s.d, r);
@@ -909,6 +1170,22 @@ struct Exec {
                 if (s.in_utt)
                     end_utt(s, Json::object(), opi);
                 load_grammar(s, op["g"], opi);
+            } else if (o == "add_word") {
+                if (s.in_utt)
+                    end_utt(s, Json::object(), opi);
+                int rv = decoder_add_word(s.d, op.gets("word").c_str(), op.gets("phones").c_str(), op.getb("update", true));
+                out.events.i64(rv);
+                out.probes[rv >= 0 ? "dict.word_added" : "dict.add_refused"]++;
+            } else if (o == "frate") {
+                if (s.in_utt)
+                    end_utt(s, Json::object(), opi);
+                config_set_int(s.d->config, "frate", (long)op.geti("frate", 100));
+                int rv = decoder_reinit_feat(s.d, NULL);
+                out.events.i64(rv);
+                int sh = 0, sz = 0;
+                fe_get_input_size(decoder_fe(s.d), &sh, &sz);
+                S = sz;
+                H = sh;
             } else if (o == "begin") {
                 if (s.in_utt)
                     end_utt(s, Json::object(), opi);
@@ -1178,11 +1455,18 @@ struct Gen {
             op.set("g", grammar::gen_fsg(r, lang(lng).vocab));
         push(op, d);
     }
+    double json_rate = 0.0; // C14: share of queries that ask for the JSON result
     double lat_rate = 0.0; // C11/C12 (and C08's probe): share of queries that are lattice / N-best / posterior requests
     Json query(bool allow_align)
     {
         Json q = Json::object();
         q.set("op", "query");
+        if (r.chance(json_rate)) {
+            q.set("what", "json");
+            q.set("level", (long long)r.weighted({ 40, 30, 30 }));
+            q.set("start", r.pick(std::vector<double> { 0.0, 0.0, 1.5, 1e6, -2.0, 0.0005 }));
+            return q;
+        }
         if (r.chance(lat_rate)) {
             switch (r.weighted({ 45, 30, 25 })) {
             case 0: q.set("what", "lattice"); break;
@@ -1214,6 +1498,8 @@ struct Gen {
             f.set("op", "feed");
             f.set("len", (long long)std::max<int64_t>(N, 1));
             f.set("full", full);
+            if (full && !canonical && r.chance(0.3))
+                f.set("ns", true); // whole utterance buffered in one call, searched inside end_utt
             if (full && r.chance(qrate))
                 push(query(false), d);
             push(f, d);
@@ -1329,7 +1615,7 @@ static const char *pick_tmpl(Rng &r)
 
 struct DecWorld : World {
     const char *name() const override { return "dec"; }
-    std::vector<std::string> properties() const override { return { "C01", "C03", "C04", "C07", "C08", "C11", "C12" }; }
+    std::vector<std::string> properties() const override { return { "C01", "C03", "C04", "C07", "C08", "C11", "C12", "C14" }; }
     int64_t default_runs(const std::string &p, int tier) const override
     {
         if (p == "C07" || p == "C08")
@@ -1337,6 +1623,8 @@ struct DecWorld : World {
         if (p == "C04")
             return tier ? 50000 : 1000;
         if (p == "C11" || p == "C12")
+            return tier ? 50000 : 1200;
+        if (p == "C14")
             return tier ? 50000 : 1200;
         return tier ? 60000 : 1600;
     }
@@ -1357,6 +1645,12 @@ struct DecWorld : World {
             return common + "C08: 2-3 decoders with 1-5 earlier utterances each (any grammar/audio/mode/outcome), interleaved call by call, then a probe utterance (decoded twice) whose "
                             "record must equal that of a pristine sibling process. Non-trivial: the probed decoder had at least one earlier utterance and the probe produced a "
                             "segmentation; distinct = distinct plan digest";
+        if (p == "C14")
+            return common + "C14: decoder_result_json(d, start, level) is requested at plan-chosen instants (before any utterance, right after start_utt, on filler-only and partial "
+                            "results, after end_utt) with level 0/1/2, start offsets {0, 1.5, 1e6, -2, 0.0005} and frame rates {50, 100, 125} (decoder_reinit_feat); word spellings with quotes, "
+                            "backslashes, control bytes and non-ASCII UTF-8 are added through decoder_add_word and forced into results by alignment texts. Oracle: a strict RFC 8259 validator "
+                            "(one object + exactly one newline), strlen+1 = allocation size, and field-by-field agreement (printed to the same three decimals) with hypothesis, segmentation "
+                            "and alignment read at the same instant. Non-trivial: at least one JSON text was validated and compared; distinct = distinct plan digest";
         if (p == "C11")
             return common + "C11: decoder_lattice is requested at plan-chosen instants (mid-utterance, after the end, twice without new audio; narrow beams and truncated audio so that the "
                             "best path misses the final state). Checked on every lattice: single start/end, every node on a start-to-end path, acyclic (Kahn), every link joins an end frame in "
@@ -1477,6 +1771,72 @@ struct DecWorld : World {
             int nu = (int)r.weighted({ 0, 65, 30, 5 });
             for (int u = 0; u < nu; ++u)
                 g.utterance(0, t, u == 0 || r.chance(0.5), false, r.chance(0.2), r.chance(0.1), 48000, r.chance(0.8) ? 0.4 : 0.1, r.chance(0.2), r.chance(0.3));
+        } else if (prop == "C14") {
+            std::string t = pick_tmpl(r);
+            add_dec(t);
+            g.json_rate = 0.85;
+            if (r.chance(0.3)) {
+                Json fo = Json::object();
+                fo.set("op", "frate");
+                fo.set("frate", r.pick(std::vector<int> { 50, 125, 100 }));
+                g.push(fo, 0);
+            }
+            // hostile spellings added through the dictionary API and forced into the result by an alignment text
+            const Lang &L = lang(lang_of(t));
+            bool hostile = r.chance(0.45);
+            std::vector<std::string> hw;
+            if (hostile) {
+                static const std::vector<std::string> bits = { "\"", "\\", "say\"hi\\", "a\"b", "\\n", "\x01", "\x1f", "\xc3\xa9", "\xe2\x82\xac", "caf\xc3\xa9", "{}", "[", "\"}", "\\\"", "tab\\t", "/", "\x7f" };
+                int n = (int)r.range(1, 3);
+                for (int i = 0; i < n; ++i) {
+                    std::string w = r.chance(0.5) ? r.pick(bits) : r.pick(L.vocab).substr(0, 3) + r.pick(bits) + (r.chance(0.5) ? r.pick(bits) : "");
+                    std::string ph;
+                    int np = (int)r.range(1, 4);
+                    for (int q = 0; q < np; ++q)
+                        ph += (q ? " " : "") + r.pick(L.phones);
+                    Json ao = Json::object();
+                    ao.set("op", "add_word");
+                    ao.set("word", w);
+                    ao.set("phones", ph);
+                    ao.set("update", r.chance(0.7));
+                    g.push(ao, 0);
+                    hw.push_back(w);
+                }
+            }
+            int nu = (int)r.weighted({ 0, 70, 25, 5 });
+            if (r.chance(0.2)) { // JSON before any utterance
+                g.add_grammar(0, lang_of(t), {});
+                g.push(g.query(true), 0);
+            }
+            for (int u = 0; u < nu; ++u) {
+                if (hostile && r.chance(0.8)) {
+                    // alignment text with the hostile words between ordinary ones
+                    std::string text;
+                    Nfa a;
+                    std::vector<std::string> ws;
+                    int nw = (int)r.range(1, 4);
+                    for (int i = 0; i < nw; ++i)
+                        ws.push_back(r.chance(0.5) ? r.pick(hw) : r.pick(L.vocab));
+                    ws.insert(ws.begin() + (long)r.below(ws.size() + 1), r.pick(hw));
+                    a.n = (int)ws.size() + 1;
+                    a.finals = { (int)ws.size() };
+                    for (size_t i = 0; i < ws.size(); ++i) {
+                        text += (i ? " " : "") + ws[i];
+                        a.add((int)i, (int)i + 1, ws[i]);
+                    }
+                    Json go = Json::object();
+                    go.set("op", "grammar");
+                    Json gg = Json::object();
+                    gg.set("kind", "align");
+                    gg.set("text", text);
+                    gg.set("nfa", a.to_json());
+                    go.set("g", gg);
+                    g.push(go, 0);
+                    g.utterance(0, t, false, false, r.chance(0.3), r.chance(0.1), 30000, 0.3, r.chance(0.2), r.chance(0.2));
+                } else
+                    g.utterance(0, t, u == 0 || r.chance(0.5), false, r.chance(0.3), r.chance(0.1), 32000, r.chance(0.7) ? 0.35 : 0.1, r.chance(0.3), r.chance(0.2));
+                g.push(g.query(true), 0);
+            }
         } else if (prop == "C11" || prop == "C12") {
             std::string t = pick_tmpl(r);
             add_dec(t);
@@ -1611,6 +1971,8 @@ struct DecWorld : World {
             out.nontrivial = any_probe && hist && out.probes.count("dec.final_result");
         } else if (prop == "C04")
             out.nontrivial = out.probes.count("align.hierarchy_checked") > 0;
+        else if (prop == "C14")
+            out.nontrivial = out.probes.count("json.checked") > 0;
         else if (prop == "C11")
             out.nontrivial = out.probes.count("lat.checked") > 0;
         else if (prop == "C12")
